@@ -57,6 +57,12 @@ def theorems_of(module):
     path = os.path.join(LEAN, *module.split(".")) + ".lean"
     code = strip_comments(open(path).read())
     names, ns = [], []
+    # a property's theorems may be split over several files: imports whose name extends the module's name (Ebu.Props.C03Facts
+    # for Ebu.Props.C03) are parts of the same property and come first
+    for line in code.splitlines():
+        m = re.match(r"\s*import\s+(\S+)", line)
+        if m and m.group(1) != module and m.group(1).startswith(module):
+            names += theorems_of(m.group(1))
     for line in code.splitlines():
         m = re.match(r"\s*namespace\s+(\S+)", line)
         if m: ns.append(m.group(1)); continue
